@@ -57,7 +57,8 @@ def dec_sent_toks(ts: list[str]):
     if k == 'p':
         i, s, ar, n = (int(ts.pop(0)) for _ in range(4))
         params = tuple(dec_param(ts) for _ in range(n))
-        return Predicated(Predicate(i, s, ar), params)
+        pred = Predicate.Identity if i == -1 else Predicate.Existence if i == -2 else Predicate(i, s, ar)
+        return Predicated(pred, params)
     if k == 'q':
         q = QTR[ts.pop(0)]
         vi, vs = int(ts.pop(0)), int(ts.pop(0))
@@ -87,8 +88,7 @@ def enc_node(n) -> str:
     if isinstance(n, AccessNode):
         return f'r {n["world1"]} {n["world2"]}'
     if isinstance(n, FlagNode):
-        info = n.get('info')
-        return f'f {n["flag"]}' + (f':{str(info).replace(" ", "_")}' if info else '')
+        return f'f {n["flag"]}'
     if isinstance(n, SentenceNode):
         d = n.get('designated')
         w = n.get('world')
